@@ -295,6 +295,32 @@ def parquetLoad (fs : P → Option (File N D V)) (paths : List P) (o : Opts N D)
         | .error e => .error e
         | .ok tab => ctorPq castCopy o tab
 
+/-! ### pickle files: `PKLFileLoader.load_data` returns the unpickled object of every file -/
+
+/-- the result of the pkl loader: the object itself for one file, the list of objects otherwise -/
+inductive PklResult (O : Type)
+  | one (o : O)
+  | many (os : List O)
+  deriving DecidableEq, Repr
+
+/-- the loop over the files (`data.append(obj)`), all keyword arguments are ignored -/
+def pklObjects {O : Type} (fs : P → Option O) : List P → Except Err (List O)
+  | [] => .ok []
+  | p :: ps =>
+    match fs p with
+    | none => .error .fileMissing
+    | some o =>
+      match pklObjects fs ps with
+      | .error e => .error e
+      | .ok os => .ok (o :: os)
+
+/-- `if len(data) == 1: data = data[0]` -/
+def pklLoad {O : Type} (fs : P → Option O) (paths : List P) : Except Err (PklResult O) :=
+  match pklObjects fs paths with
+  | .error e => .error e
+  | .ok [o] => .ok (.one o)
+  | .ok os => .ok (.many os)
+
 /-! ### text files: header = field names, every column float64 -/
 
 /-- `TextFileLoader._load_file`: `np.loadtxt(usecols = kept columns, dtype = float64 for every
